@@ -21,6 +21,8 @@ if r.returncode != 0:
     r = sh("git -C %s apply --3way %s" % (WT, patch))
     if r.returncode != 0:
         print("PATCH DOES NOT APPLY:", r.stderr[-500:]); sh("git -C /repo worktree remove --force %s" % WT); sys.exit(2)
+evf = os.path.join(ROOT, "evidence", prop + ".json")
+ev_backup = open(evf).read() if os.path.exists(evf) else None
 try:
     env = dict(os.environ, PYTHONPATH=WT)
     demo_mut = subprocess.run(["/venv/bin/python", os.path.join(d, "demo.py")], capture_output=True, text=True, env=env, timeout=900).returncode
@@ -39,6 +41,8 @@ try:
         results[seed] = {"exit": c.returncode, "tail": lines[-3:], "signatures": sorted(set(sigs))[:8]}
 finally:
     sh("git -C /repo worktree remove --force %s" % WT)
+    if ev_backup is not None:      # evidence must come from runs against /repo itself
+        open(evf, "w").write(ev_backup)
     sh("find %s/replays -name '%s_*' -newer %s -delete" % (ROOT, prop, patch))
 caught = any(v["exit"] == 1 for v in results.values())
 print(json.dumps({"prop": prop, "k": k, "demo_clean_exit": demo_clean, "demo_mutant_exit": demo_mut, "check": results, "caught": caught}, indent=1))
